@@ -67,7 +67,7 @@ def mc_files(tasks, cancels, devs=(), liveness=False):
         cfg += ' %s = %s\n' % (d, 'TRUE' if d in devs else 'FALSE')
     cfg += 'SPECIFICATION Spec\nCHECK_DEADLOCK FALSE\n'
     if liveness:
-        cfg += 'PROPERTY Termination\n'
+        cfg += 'PROPERTY TerminationX\n'
     else:
         for i in INVARIANTS:
             cfg += 'INVARIANT %s\n' % i
